@@ -8,8 +8,8 @@ impl<T, M> Iterator for Wrapped<T, M> { type Item = T; fn next(&mut self) -> Opt
 fn main() {
     let col: Vec<String> = vec![String::from("a"), String::from("b"), String::from("c")];
     let it = col.into_iter().into_con_iter();
-    let mut b = it.buffered_iter(2);
+    let c = it.next_chunk(2);
     let r = it.next();
-    drop(it);
-    if let Some(x) = r { let _y = x.clone(); }
+    let mut b = it.buffered_iter(2);
+    if let Some(x) = c { let _n = x.values.count(); }
 }
